@@ -456,6 +456,11 @@ func genFrame(r *Rng, bound *net.UDPAddr, buflen int) ([]byte, string) {
 	case 1:
 		s.dst[r.Intn(4)] ^= byte(1 << r.Intn(8))
 		kind = "other-address"
+	case 20:
+		// the addresses a filter is most tempted to let through (seeded change
+		// C18-6: "broadcast replies are for us too" on a connection bound to an IP)
+		s.dst = [][4]byte{{255, 255, 255, 255}, {0, 0, 0, 0}, {s.dst[0], s.dst[1], s.dst[2], 255}, {127, 0, 0, 1}, {224, 0, 0, 1}}[r.Intn(5)]
+		kind = "special-address"
 	case 2:
 		s.proto = []byte{0, 1, 6, 16, 18, 41, 255}[r.Intn(7)]
 		kind = "non-udp"
